@@ -88,7 +88,7 @@ func usedIndexes(w *Workload) (docs, exprs map[int]bool) {
 	for _, t := range w.Tasks {
 		for _, op := range t {
 			switch op.K {
-			case "feed":
+			case "feed", "churn":
 			case "mutate":
 				docs[op.D] = true
 			case "compile", "mustcompile":
